@@ -4,6 +4,7 @@
 set -e -o pipefail
 cd "$(dirname "$0")"
 /venv/bin/python harness/translate_tables.py
+/venv/bin/python harness/translate_code.py
 cd lean
 lake build Cellml driver 2>&1 | tail -60
 test -x .lake/build/bin/driver
